@@ -44,10 +44,12 @@ def oracle(content, args=()):
     return _oracle[k]
 
 
-def concretise(cls, prog_text):
-    """bytes of a file of the given content class, derived from one program text"""
+def concretise(cls, prog_text, big=False):
+    """bytes of a file of the given content class, derived from one program text (big: more than 256 KiB)"""
+    if big:
+        prog_text = (prog_text + "\n") * (300 * 1024 // (len(prog_text) + 1) + 1)
     rc, F = oracle(prog_text.encode())
-    if rc != 0 or not F.endswith(b"\n"):
+    if rc != 0 or not F.endswith(b"\n") or len(F) > 2_000_000:      # (repeated declarations can nest: quadratic indentation)
         return None
     if cls == "formatted":
         return F
@@ -100,8 +102,17 @@ def run_modes_scenario(idx, sc, texts):
         os.makedirs(os.path.join(d, "sub"))
         files, contents = {}, {}
         rnd = random.Random(SEED * 7919 + idx)
+        # refinements of the model's scenario that its abstraction must be insensitive to (the model's files are distinct
+        # whatever their names; its byte counts stand for any sizes; a worker may have handled any file before):
+        #   twins: two of the files have names that differ in letter case only
+        #   big:   the first file is larger than 256 KiB and is followed, on one worker thread, by the others and by padding files
+        variant = idx % 4
+        twins = variant in (1, 3) and sc["form"] != "stdin"
+        big = variant == 2 and sc["form"] in ("file", "files_from")
         for k, (f, cls) in enumerate(sorted(sc["class"].items())):
             name = {0: "f1.pas", 1: "sub/f2.dpr", 2: "f3.PAS"}.get(k, f"g{k}.pas") if sc["form"] in ("dir", "files_from", "file") else f"f{k + 1}.pas"
+            if twins and k in (0, 2):
+                name = "Unit1.pas" if k == 0 else "unit1.pas"
             path = os.path.join(d, name)
             files[f] = path
             if cls == "missing":
@@ -113,7 +124,7 @@ def run_modes_scenario(idx, sc, texts):
                 continue
             c = None
             for _ in range(20):
-                c = concretise(cls, rnd.choice(texts))
+                c = concretise(cls, rnd.choice(texts), big=big and k == 0 and cls != "empty")
                 if c is not None and check_class(cls, c):
                     break
                 c = None
@@ -127,11 +138,18 @@ def run_modes_scenario(idx, sc, texts):
         with open(other, "wb") as fh:
             fh.write(b"a ;  not pascal")
         before = {f: (os.stat(p).st_mtime_ns, os.stat(p).st_ino) for f, p in files.items() if contents[f] is not None}
+        pads = []
+        if big:
+            for k in range(13):
+                pp = os.path.join(d, f"pad{k:02d}.pas")
+                with open(pp, "wb") as fh:
+                    fh.write(b"a;\n")
+                pads.append(pp)
         mode_args = ["--mode", sc["mode"]]
         stdin = b""
         form = sc["form"]
         if form == "file":
-            args = mode_args + [files[f] for f in sorted(files)]
+            args = mode_args + [files[f] for f in sorted(files)] + pads
         elif form == "dir":
             args = mode_args + [d]
         elif form == "glob":
@@ -139,14 +157,18 @@ def run_modes_scenario(idx, sc, texts):
         elif form == "files_from":
             lst = os.path.join(root, "list.txt")
             with open(lst, "w") as fh:
-                fh.write("\n".join(files[f] for f in sorted(files)) + "\n")
+                fh.write("\n".join([files[f] for f in sorted(files)] + pads) + "\n")
             args = mode_args + ["--files-from", lst]
         else:
             f0 = sorted(files)[0]
             stdin = contents[f0] or b""
             args = mode_args
-        rc, out, err = run_bin(args, root, stdin=stdin)
-        what = f"mode={sc['mode']} form={form} classes={sc['class']}"
+        rc, out, err = run_bin(args, root, stdin=stdin, env={"RAYON_NUM_THREADS": "1"} if big else None)
+        what = f"mode={sc['mode']} form={form} classes={sc['class']}" + (" (names differing in case only)" if twins else "") + (" (first file > 256 KiB, one thread, padding files)" if big else "")
+        for pp in pads:
+            if open(pp, "rb").read() != b"a;\n":
+                problems.append({"clause": "files_mode_result" if sc["mode"] == "files" else "only_files_mode_writes", "detail": f"a formatted padding file was changed ({what})"})
+                break
         if rc != sc["exit"] and not (rc != 0 and sc["exit"] != 0):
             problems.append({"clause": "exit_status", "detail": f"exit status {rc}, the model says {sc['exit']} ({what}); stderr: {err[-300:].decode(errors='replace')}"})
         stream = sorted(files)[0]
@@ -430,6 +452,78 @@ def run_batch_scenario(idx, sc, texts):
         return problems, False, events
     finally:
         shutil.rmtree(root, ignore_errors=True)
+
+
+# ------------------------------------------------------------------------------------------------ exit status (CliExit.tla)
+
+def run_exit_scenario(idx, sc):
+    """sc: {fails, goods, kind, nonzero} from CliExit.tla: `fails` failing paths of one kind and `goods` succeeding ones in one
+    invocation (through --files-from); the status must be non-zero iff fails > 0, the good files must be handled normally"""
+    root = tempfile.mkdtemp(prefix=f"x{idx}_", dir=CLI_ROOT)
+    problems = []
+    try:
+        d = os.path.join(root, "src")
+        os.makedirs(d)
+        kind, fails, goods = sc["kind"], sc["fails"], sc["goods"]
+        src = b"procedure   Foo ;\nbegin\n  X:=1 ;\nend ;\n"
+        rc0, formatted = oracle(src)
+        if rc0 != 0:
+            return [], True
+        mode = "check" if kind == "misformatted_check" else "files"
+        paths, good_paths = [], []
+        for k in range(fails):
+            p = os.path.join(d, f"bad{k:06d}.pas")
+            if kind == "undecodable":
+                with open(p, "wb") as fh:
+                    fh.write(b"x := 1;\x80\xc3(")
+            elif kind == "misformatted_check":
+                with open(p, "wb") as fh:
+                    fh.write(src)
+            paths.append(p)
+        for k in range(goods):
+            p = os.path.join(d, f"good{k}.pas")
+            with open(p, "wb") as fh:
+                fh.write(formatted if mode == "check" else src)
+            good_paths.append(p)
+            paths.insert((k * 7919 + idx) % (len(paths) + 1), p)
+        lst = os.path.join(root, "list.txt")
+        with open(lst, "w") as fh:
+            fh.write("\n".join(paths) + "\n")
+        if not paths:
+            return [], True
+        rc, out, err = run_bin(["--mode", mode, "--files-from", lst], root, timeout=600,
+                               env={"RAYON_NUM_THREADS": str([1, 4, 16][idx % 3])})
+        what = f"{fails} failing paths ({kind}), {goods} good ones, mode={mode}"
+        if (rc != 0) != sc["nonzero"]:
+            problems.append({"clause": "exit_status", "detail": f"exit status {rc} with {what}"})
+        for p in good_paths:
+            if open(p, "rb").read() != formatted:
+                problems.append({"clause": "failing_untouched" if mode == "check" else "files_mode_result", "detail": f"a good file does not hold the formatted result after a run with {what}"})
+                break
+        return problems, False
+    finally:
+        shutil.rmtree(root, ignore_errors=True)
+
+
+def exit_scenarios(c, tier):
+    """MC of CliExit (and its bug instance), then every final state replayed on the binary; returns (ran, problems)"""
+    c.mc("CliExit", "CliExit_bug.cfg", expect_violation=True, workers=2, timeout=600)
+    r = c.mc("CliExit", "CliExit.cfg" if tier == "quick" else "CliExit_wide.cfg", workers=4, timeout=1800)
+    seen, scen = set(), []
+    for t, p in r["replay"]:
+        k = json.dumps(p, sort_keys=True)
+        if k not in seen:
+            seen.add(k)
+            scen.append(p)
+    res = run_scenarios(run_exit_scenario, scen, threads=4)
+    out, ran = [], 0
+    for sc, (problems, skipped) in zip(scen, res):
+        if skipped:
+            continue
+        ran += 1
+        for p in problems:
+            out.append((sc, p))
+    return ran, out
 
 
 # ------------------------------------------------------------------------------------------------ C03 through the CLI
